@@ -16,6 +16,7 @@ import io
 import json
 import os
 import random
+import re
 import sys
 import tempfile
 import warnings
@@ -119,23 +120,28 @@ def observe(case, ver, tmpdir):
             direct.append((entry, kind, f"raised {type(e).__name__}: {e}"[:200]))
             return None, None
 
+    # a parsed ElementTree has lost the prefix declarations that QName VALUES (xs:QName attributes) need: the
+    # caller hands them over through the namespaces argument, as the documentation says
+    decls = set(re.findall(r'xmlns:(\w+)="([^"]*)"', xml))
+    tree_ns = dict(decls) if len(dict(decls)) == len(decls) else None
     for kind in KINDS:
-        if kind in ("element", "tree") and case["origin"] == "derivation":
+        if kind in ("element", "tree") and (case["origin"] == "derivation" or tree_ns is None):
             continue    # xsi:type values are QNames: a parsed tree has lost the prefixes they need
+        nskw = {"namespaces": tree_ns} if kind in ("element", "tree") and ' ref="' in xml else {}
         for api in ("method", "function"):
             if api == "function" and kind not in ("text", "path", "element"):
                 continue
             tag = kind if api == "method" else kind + "/pkg"
             if api == "method":
-                is_valid = lambda s: schema.is_valid(s)                 # noqa: E731
-                iter_errors = lambda s: schema.iter_errors(s)           # noqa: E731
-                validate = lambda s: schema.validate(s)                 # noqa: E731
-                decode = lambda s, **k: schema.decode(s, **k)           # noqa: E731
+                is_valid = lambda s: schema.is_valid(s, **nskw)                 # noqa: E731
+                iter_errors = lambda s: schema.iter_errors(s, **nskw)           # noqa: E731
+                validate = lambda s: schema.validate(s, **nskw)                 # noqa: E731
+                decode = lambda s, **k: schema.decode(s, **nskw, **k)           # noqa: E731
             else:
-                is_valid = lambda s: xmlschema.is_valid(s, schema=schema)            # noqa: E731
-                iter_errors = lambda s: xmlschema.iter_errors(s, schema=schema)      # noqa: E731
-                validate = lambda s: xmlschema.validate(s, schema=schema)            # noqa: E731
-                decode = lambda s, **k: xmlschema.to_dict(s, schema=schema, **k)     # noqa: E731
+                is_valid = lambda s: xmlschema.is_valid(s, schema=schema, **nskw)            # noqa: E731
+                iter_errors = lambda s: xmlschema.iter_errors(s, schema=schema, **nskw)      # noqa: E731
+                validate = lambda s: xmlschema.validate(s, schema=schema, **nskw)            # noqa: E731
+                decode = lambda s, **k: xmlschema.to_dict(s, schema=schema, **nskw, **k)     # noqa: E731
             ok, r = guarded("is_valid", tag, lambda: is_valid(source(kind)))
             if ok is not None:
                 ev("is_valid", tag, res=bool(r) if ok else False, exc=0 if ok else eid(r))
